@@ -25,6 +25,154 @@ theorem env_merged_everywhere (sup : KV) (g : GConfig) :
     (mergeGroupEnv sup g).procs.map (·.environment) = g.procs.map (fun p => mergeEnv sup p.environment) := by
   simp [mergeGroupEnv, List.map_map, Function.comp_def]
 
+/-! ### the environment of one program does not depend on the other sections -/
+
+/-- the generated fact: every process configuration gets a dictionary of its own -/
+theorem env_loop_copies : rcEnvCopied = true := by decide
+
+theorem mergeGroupEnvBy_eq (sup fin : KV) (g : GConfig) : mergeGroupEnvBy rcEnvCopied sup fin g = mergeGroupEnv sup g := by
+  simp [mergeGroupEnvBy, mergeGroupEnv, env_loop_copies]
+
+/-- **environment_independent_of_other_sections.**  After the loop at the end of `read_config`, the environment of a
+    process is the [supervisord] environment overlaid with the environment of ITS OWN section — whatever other groups
+    and processes the file defines, in whatever order they are processed — and the [supervisord] environment itself is
+    what it was before the loop. -/
+theorem environment_independent_of_other_sections (sup : KV) (gs : List GConfig) :
+    envAfterLoop rcEnvCopied sup gs = sup ∧
+    ∀ g ∈ gs, (mergeGroupEnvBy rcEnvCopied sup (envAfterLoop rcEnvCopied sup gs) g).procs.map (·.environment)
+      = g.procs.map (fun p => mergeEnv sup p.environment) := by
+  refine ⟨by simp [envAfterLoop, env_loop_copies], fun g _ => ?_⟩
+  rw [mergeGroupEnvBy_eq]
+  simp [mergeGroupEnv, List.map_map, Function.comp_def]
+
+/-- the [supervisord] environment of a parsed ini: a function of the [supervisord] section, `here`, the host name and the
+    inherited ENV_ expansions only -/
+def supEnvOf (ini : Ini) : Except String KV := do
+  let sec ← orError (ini.find "supervisord") "constraint:.ini file does not include supervisord section"
+  let penv0 := strVals ini.environ
+  let envStr0 ← getField penv0 "supervisord" sec "environment" [] [("here", Val.s ini.here)] >>= asStr
+  let envStr ← expand (dupdate [("here", Val.s ini.here), ("host_node_name", Val.s ini.hostNode)] penv0) envStr0
+  dictOfKeyValuePairs envStr
+
+theorem read_config_environment (ini : Ini) (r : Result) (h : readConfig ini = .ok r) :
+    supEnvOf ini = .ok r.sup.environment ∧
+    ∃ cx gs, processGroupsFromParser cx ini = .ok gs ∧ r.groups = gs.map (mergeGroupEnv r.sup.environment) := by
+  simp only [readConfig, bind, Except.bind, pure, Except.pure] at h
+  repeat (split at h <;> try contradiction)
+  injection h with h
+  subst h
+  refine ⟨?_, _, _, ‹_›, ?_⟩
+  · simp only [supEnvOf, orError, bind, Except.bind, pure, Except.pure, envAfterLoop, env_loop_copies, if_true, *]
+  · simp only [envAfterLoop, env_loop_copies, if_true]
+    exact List.map_congr_left fun g _ => mergeGroupEnvBy_eq _ _ g
+
+/-- what the loop would do without the per-process copy (one dictionary shared by all): shown on a concrete file -/
+def exP (name : String) (env : KV) : PConfig :=
+  { kind := .process, name, command := "/bin/" ++ name, directory := none, umask := none, priority := 999, autostart := true,
+    autorestart := .unexpected, startsecs := 1, startretries := 3, uid := none, stdout_logfile := .auto,
+    stdout_capture_maxbytes := 0, stdout_events_enabled := false, stdout_logfile_backups := 10, stdout_logfile_maxbytes := 0,
+    stdout_syslog := false, stderr_logfile := .auto, stderr_capture_maxbytes := 0, stderr_events_enabled := false,
+    stderr_logfile_backups := 10, stderr_logfile_maxbytes := 0, stderr_syslog := false, stopsignal := 15, stopwaitsecs := 10,
+    stopasgroup := false, killasgroup := false, exitcodes := [0], redirect_stderr := false, environment := env, serverurl := none }
+def exEnvGroups : List GConfig :=
+  [{ kind := .group, name := "alpha", priority := 999, procs := [exP "alpha" [("ONLY_ALPHA", "1"), ("SHARED", "from_alpha")]] },
+   { kind := .group, name := "beta", priority := 999, procs := [exP "beta" []] },
+   { kind := .group, name := "gamma", priority := 999, procs := [exP "gamma" [("ONLY_GAMMA", "1"), ("SHARED", "from_gamma")]] }]
+def exSupEnv : KV := [("GLOBAL", "g"), ("SHARED", "from_supervisord")]
+def envsAfter (copied : Bool) : List KV :=
+  (exEnvGroups.map (mergeGroupEnvBy copied exSupEnv (envAfterLoop copied exSupEnv exEnvGroups))).flatMap fun g => g.procs.map (·.environment)
+
+-- the code as it is: each program its own overlay, beta exactly the [supervisord] environment
+example : envsAfter rcEnvCopied = [[("GLOBAL", "g"), ("SHARED", "from_alpha"), ("ONLY_ALPHA", "1")], exSupEnv,
+                                   [("GLOBAL", "g"), ("SHARED", "from_gamma"), ("ONLY_GAMMA", "1")]] := by decide
+-- one shared dictionary (`env = section.environment`): every program ends up with the union, the last one processed wins
+example : envsAfter false = List.replicate 3 [("GLOBAL", "g"), ("SHARED", "from_gamma"), ("ONLY_ALPHA", "1"), ("ONLY_GAMMA", "1")] := by decide
+
+
+/-! ### included files -/
+
+/-- a section in which no `%(here)s` is left -/
+def HereFree (s : HSection) : Prop := ∀ d, s.subst d = s
+
+theorem tok_subst_subst (d d' : String) (t : HTok) : (t.subst d).subst d' = t.subst d := by
+  cases t <;> rfl
+
+theorem subst_subst (d d' : String) (s : HSection) : (s.subst d).subst d' = s.subst d := by
+  simp [HSection.subst, List.map_map, Function.comp_def, tok_subst_subst]
+
+theorem hereFree_subst (d : String) (s : HSection) : HereFree (s.subst d) := fun d' => subst_subst d d' s
+
+theorem mem_expandHere (d : String) (s : HSection) (secs : List HSection) (h : s ∈ secs) : s.subst d ∈ expandHere d secs :=
+  List.mem_map_of_mem h
+
+/-- the generated fact: after a matched file has been read, `expand_here` is given THAT file's directory -/
+theorem hereArg_is_dir_of_file (mainHere : String) (p : IncPattern) (f : IncFile) : hereArg mainHere p f = f.dir := by
+  simp [hereArg, includeHereSrc]
+
+theorem readFiles_keeps (mainHere : String) (p : IncPattern) (s : HSection) (hs : HereFree s) :
+    ∀ (fs : List IncFile) (acc : List HSection), s ∈ acc → s ∈ readFiles mainHere p acc fs := by
+  intro fs
+  induction fs with
+  | nil => intro acc h; simpa [readFiles] using h
+  | cons f fs ih =>
+    intro acc h
+    simp only [readFiles]
+    apply ih
+    have := mem_expandHere (hereArg mainHere p f) s (acc ++ f.sections) (List.mem_append_left _ h)
+    rwa [hs] at this
+
+theorem readFiles_expands (mainHere : String) (p : IncPattern) (f : IncFile) (s : HSection) (hs : s ∈ f.sections) :
+    ∀ (fs : List IncFile) (acc : List HSection), f ∈ fs → s.subst f.dir ∈ readFiles mainHere p acc fs := by
+  intro fs
+  induction fs with
+  | nil => intro acc h; cases h
+  | cons f0 fs ih =>
+    intro acc h
+    simp only [readFiles]
+    rcases List.mem_cons.mp h with rfl | h
+    · apply readFiles_keeps _ _ _ (hereFree_subst _ _)
+      have := mem_expandHere (hereArg mainHere p f) s (acc ++ f.sections) (List.mem_append_right _ hs)
+      rwa [hereArg_is_dir_of_file] at this
+    · exact ih _ h
+
+theorem foldl_keeps (mainHere : String) (s : HSection) (hs : HereFree s) :
+    ∀ (pats : List IncPattern) (acc : List HSection), s ∈ acc →
+      s ∈ pats.foldl (fun acc p => readFiles mainHere p acc p.files) acc := by
+  intro pats
+  induction pats with
+  | nil => intro acc h; simpa using h
+  | cons p ps ih => intro acc h; simp only [List.foldl_cons]; exact ih _ (readFiles_keeps mainHere p s hs _ _ h)
+
+/-- **include_here_is_directory_of_file.**  Every section of every file matched by an include pattern reaches the parser
+    with `%(here)s` standing for the directory of THAT file — whatever the pattern looked like (wildcards in a
+    directory part, several matches in different directories), whatever was read before or is read after it. -/
+theorem include_here_is_directory_of_file (mainHere : String) (main : List HSection) (pats : List IncPattern)
+    (p : IncPattern) (f : IncFile) (s : HSection) (hp : p ∈ pats) (hf : f ∈ p.files) (hs : s ∈ f.sections) :
+    s.subst f.dir ∈ readInclude mainHere main pats := by
+  unfold readInclude
+  generalize expandHere mainHere main = acc
+  induction pats generalizing acc with
+  | nil => cases hp
+  | cons p0 ps ih =>
+    simp only [List.foldl_cons]
+    rcases List.mem_cons.mp hp with rfl | hp
+    · exact foldl_keeps mainHere _ (hereFree_subst _ _) ps _ (readFiles_expands mainHere p f s hs _ _ hf)
+    · exact ih hp _
+
+/-- … and the sections of the main file with the main file's directory -/
+theorem main_here_is_directory_of_main (mainHere : String) (main : List HSection) (pats : List IncPattern)
+    (s : HSection) (hs : s ∈ main) : s.subst mainHere ∈ readInclude mainHere main pats :=
+  foldl_keeps mainHere _ (hereFree_subst _ _) pats _ (mem_expandHere mainHere s main hs)
+
+-- satisfiable: `files = apps/*/supervisor.conf` matching two directories
+def exAlpha : HSection := ⟨"program:alpha", [("command", [.here, .lit "/bin/run"])]⟩
+def exBeta : HSection := ⟨"program:beta", [("environment", [.lit "APP_HOME=\"", .here, .lit "\""])]⟩
+example : readInclude "/etc" [⟨"supervisord", [("environment", [.lit "ROOT=", .here])]⟩]
+      [⟨"/etc/apps/*", [⟨"/etc/apps/alpha", [exAlpha]⟩, ⟨"/etc/apps/beta", [exBeta]⟩]⟩]
+    = [⟨"supervisord", [("environment", [.lit "ROOT=", .lit "/etc"])]⟩,
+       ⟨"program:alpha", [("command", [.lit "/etc/apps/alpha", .lit "/bin/run"])]⟩,
+       ⟨"program:beta", [("environment", [.lit "APP_HOME=\"", .lit "/etc/apps/beta", .lit "\""])]⟩] := by decide
+
 /-! ### documented defaults -/
 
 /-- the value a coded default denotes; a default that names another local (killasgroup ← stopasgroup)
@@ -923,12 +1071,8 @@ theorem section_error_rejects_file (cx : Ctx) (ini : Ini) (sec : Section) (hmem 
 
 /-- … and a failing group stage makes `read_config` fail: the error reaches the caller as an error value -/
 theorem groups_error_rejects_config (ini : Ini) (r : Result) (h : readConfig ini = .ok r) :
-    ∃ cx gs, processGroupsFromParser cx ini = .ok gs ∧ r.groups = gs.map (mergeGroupEnv r.sup.environment) := by
-  simp only [readConfig, bind, Except.bind, pure, Except.pure] at h
-  repeat (split at h <;> try contradiction)
-  injection h with h
-  subst h
-  exact ⟨_, _, ‹_›, rfl⟩
+    ∃ cx gs, processGroupsFromParser cx ini = .ok gs ∧ r.groups = gs.map (mergeGroupEnv r.sup.environment) :=
+  (read_config_environment ini r h).2
 
 
 /-! ### non-vacuity: concrete files exercising the hypotheses above -/
